@@ -1,6 +1,6 @@
 (* C06 - A join visits exactly the intersection, once each, in index order. *)
 From SV Require Import Base.ListX Store.Masked World.Env World.Join World.JoinProps World.JoinAbs World.JoinRefine
-  World.JoinAbsProps World.EnvSim World.JoinNoStuck World.Simulation
+  World.JoinAbsProps World.EnvSim World.JoinNoStuck World.Simulation World.JoinMask
   Bits.Hibit Bits.HibitIter Bits.HibitOrder Bits.HibitSet Bits.HibitExpr Bits.HibitOps.
 From Coq Require Import Sorting.Sorted.
 
@@ -206,6 +206,13 @@ Theorem C06_mask_iteration_yields_exactly_the_members_in_index_order : forall g 
               StronglySorted N.lt out /\ forall x, In x out <-> P x.
 Proof. exact iteration_exact. Qed.
 
+(* so the layer walk over the mask of a join - any layered representation that stands for "every member has the index" -
+   terminates having produced the very key list of the join model, the one all the theorems above are about *)
+Theorem C06_the_layer_walk_over_a_joins_mask_yields_the_models_keys : forall e eids ms keys g,
+  jkeys e eids ms = Some keys -> exact g (fun i => forall m, In m ms -> m_has e eids m i = true) ->
+  drain_iter g (S (weight (fresh g))) (fresh g) = Some keys.
+Proof. exact layer_walk_is_jkeys. Qed.
+
 Example C06_mask_nonvacuous :
   let a := fold_left bs_do [BAdd 63; BAdd 64; BAdd 4095; BAdd 4096; BAdd 262143; BAdd 262144; BAdd 7; BRemove 7; BAdd 16777215] bs_empty in
   let b := fold_left bs_do [BAdd 64; BAdd 4096; BAdd 9; BAdd 262144; BRemove 262144] bs_empty in
@@ -240,3 +247,4 @@ Print Assumptions C06_bitset_tracks_the_plain_set.
 Print Assumptions C06_bitset_iteration_is_the_ascending_element_list.
 Print Assumptions C06_combined_masks_stand_for_the_combined_membership.
 Print Assumptions C06_mask_iteration_yields_exactly_the_members_in_index_order.
+Print Assumptions C06_the_layer_walk_over_a_joins_mask_yields_the_models_keys.
